@@ -33,9 +33,10 @@ theorem set_refused_unchanged (cb : Nat → Value → Bool) (t : Table) (idx : N
     (h : (register_set cb t idx v).1.code ≠ .success) : (register_set cb t idx v).2 = t :=
   Ufw.Props.C01.set_refused_unchanged cb t idx v true h
 
-/-- a set to one register does not change what a get of another register returns -/
-theorem set_other_get (cb : Nat → Value → Bool) (t t' : Table) (idx j : Nat) (v : Value) (wv : Bool) (adr : Nat)
-    (h : register_setx cb t idx v wv = (⟨.success, adr⟩, t')) (hl : Layout t) (hij : idx ≠ j) :
+/-- a set to one register does not change what a get of a register with separate storage returns -/
+theorem set_other_get_pair (cb : Nat → Value → Bool) (t t' : Table) (idx j : Nat) (v : Value) (wv : Bool) (adr : Nat)
+    (h : register_setx cb t idx v wv = (⟨.success, adr⟩, t'))
+    (hl : ∀ e e', t.entries[idx]? = some e → t.entries[j]? = some e' → Apart e e') :
     register_get t' j = register_get t j := by
   obtain ⟨hi, e, a, raw, a', he, _, ha, _, hs, hwr, ht'⟩ := Ufw.Props.C01.set_success_inv cb t t' idx v wv adr h
   subst ht'
@@ -44,7 +45,7 @@ theorem set_other_get (cb : Nat → Value → Bool) (t t' : Table) (idx j : Nat)
   | none => rfl
   | some e' =>
     simp only
-    have hap := hl idx j e e' hij he hej
+    have hap := hl e e' he hej
     by_cases hsame : e'.area = e.area
     · rw [hsame, set_getElem t.areas e.area a a' ha, ha]
       simp only
@@ -63,6 +64,12 @@ theorem set_other_get (cb : Nat → Value → Bool) (t t' : Table) (idx j : Nat)
         · rename_i hh; exact absurd hh.symm hsame
         · rfl
       rw [this]
+
+/-- a set to one register does not change what a get of another register returns -/
+theorem set_other_get (cb : Nat → Value → Bool) (t t' : Table) (idx j : Nat) (v : Value) (wv : Bool) (adr : Nat)
+    (h : register_setx cb t idx v wv = (⟨.success, adr⟩, t')) (hl : Layout t) (hij : idx ≠ j) :
+    register_get t' j = register_get t j :=
+  set_other_get_pair cb t t' idx j v wv adr h (fun e e' he he' => hl idx j e e' hij he he')
 
 /-- the invariant "every register satisfies its constraint" survives every typed set, accepted
     or refused -/
